@@ -15,9 +15,72 @@ from .C05 import density as density_index_spaces, orders
 from .. import ispace as I
 
 
+def merge_partial_views(fn0):
+    """copy of the kernel in which a hoisted view `v = A[i, j]` of an array parameter (v assigned once, used only as `v[...]`
+    inside the block that defines it) is written back at its uses as `A[i, j, ...]`: basic indexing of an ndarray with fewer
+    indices than dimensions yields a view, and indexing the view completes the index tuple"""
+    import copy
+    fn = copy.deepcopy(fn0)
+    params = {a.arg for a in fn.args.args}
+    par = {}
+    for n in ast.walk(fn):
+        for c in ast.iter_child_nodes(n):
+            par[c] = n
+    stores = {}
+    for n in ast.walk(fn):
+        if isinstance(n, ast.Name) and isinstance(n.ctx, (ast.Store, ast.Del)):
+            stores[n.id] = stores.get(n.id, 0) + 1
+    done = True
+    while done:
+        done = False
+        for blk in [getattr(n, f) for n in ast.walk(fn) for f in ("body", "orelse") if isinstance(getattr(n, f, None), list)]:
+            for k, st in enumerate(blk):
+                if not (isinstance(st, ast.Assign) and len(st.targets) == 1 and isinstance(st.targets[0], ast.Name)
+                        and isinstance(st.value, ast.Subscript) and isinstance(st.value.value, ast.Name)
+                        and st.value.value.id in params and stores.get(st.targets[0].id) == 1):
+                    continue
+                v = st.targets[0].id
+                head = st.value.slice.elts if isinstance(st.value.slice, ast.Tuple) else [st.value.slice]
+                if any(isinstance(x, (ast.Slice, ast.Starred)) for x in head) or \
+                        not all(isinstance(x, (ast.Name, ast.Constant)) for x in head):
+                    continue
+                uses = [n for n in ast.walk(fn) if isinstance(n, ast.Name) and n.id == v and n is not st.targets[0]]
+                later = {id(n) for s2 in blk[k + 1:] for n in ast.walk(s2)}
+                # index variables must keep their value between the definition and the uses: not re-bound in the later statements
+                rebound = {n.id for s2 in blk[k + 1:] for n in ast.walk(s2) if isinstance(n, ast.Name) and isinstance(n.ctx, ast.Store)}
+                if not uses or not all(id(u) in later and isinstance(par.get(u), ast.Subscript) and par[u].value is u for u in uses) or \
+                        any(isinstance(x, ast.Name) and x.id in rebound for x in head) or st.value.value.id in rebound:
+                    continue
+                for u in uses:
+                    sub = par[u]
+                    tail = sub.slice.elts if isinstance(sub.slice, ast.Tuple) else [sub.slice]
+                    sub.value = ast.Name(id=st.value.value.id, ctx=ast.Load())
+                    sub.slice = ast.Tuple(elts=[copy.deepcopy(x) for x in head] + list(tail), ctx=ast.Load())
+                    par[sub.value] = sub
+                    par[sub.slice] = sub
+                del blk[k]
+                done = True
+                break
+            if done:
+                break
+    return ast.fix_missing_locations(fn)
+
+
+def _resolved(fn, e, depth=4):
+    """expression with a plain local name replaced by its single definition in fn (a temporary), repeatedly"""
+    while isinstance(e, ast.Name) and depth > 0:
+        d_ = [n for n in ast.walk(fn) if isinstance(n, ast.Assign) and len(n.targets) == 1 and isinstance(n.targets[0], ast.Name)
+              and n.targets[0].id == e.id]
+        if len(d_) != 1:
+            break
+        e, depth = d_[0].value, depth - 1
+    return e
+
+
 def kernel_formula(chk, rel, name, perturbed):
     fn = chk.func(rel, name)
     args = make_args(fn, arrays=("rho",))
+    fn = merge_partial_views(fn)
     ex = SymExec(fn, args, calls=dict(SPLINE_HANDLERS))
     try:
         ex.run()
@@ -45,7 +108,7 @@ def equilibrium_same_quadrature(chk):
     k = [c for c in ast.walk(fn) if isinstance(c, ast.Call) and isinstance(c.func, ast.Name) and c.func.id == "get_perturbed_rho"]
     ok, bad = None, None
     if len(k) == 1:
-        texts = [src(a) for a in k[0].args] + [src(kw.value) for kw in k[0].keywords]
+        texts = [src(_resolved(fn, a)) for a in k[0].args] + [src(_resolved(fn, kw.value)) for kw in k[0].keywords]
         ok = any("self._quad_coeffs" in t for t in texts) and any("self._fEq" in t for t in texts)
     else:
         # the equilibrium is subtracted some other way: whatever is subtracted must have been produced with the quadrature weights
@@ -107,7 +170,10 @@ def run(chk):
                             ("getRho", "get_rho", {"rho.getAllData()": "rho", "grid.getAllData()": "grid",
                                                    "self._quad_coeffs": "quad_coeffs"})):
         fn = chk.func(U.POISSON, f"DensityFinder.{m}")
-        c = [x for x in ast.walk(fn) if isinstance(x, ast.Call) and isinstance(x.func, ast.Name) and x.func.id == kname][0]
+        cs = [x for x in ast.walk(fn) if isinstance(x, ast.Call) and isinstance(x.func, ast.Name) and x.func.id == kname]
+        if len(cs) != 1:
+            raise AnalysisError(f"C16: expected one call of {kname} in DensityFinder.{m}, found {len(cs)}")
+        c = cs[0]
         agree.check_roles(chk, U.POISSON, f"DensityFinder.{m}", c, [a.arg for a in chk.func(U.PTOOLS, kname).args.args], table)
         # the output argument is the whole storage of the density grid
         bb = agree.bind_call(c, [a.arg for a in chk.func(U.PTOOLS, kname).args.args]) or {}
@@ -128,9 +194,19 @@ def run(chk):
         if m == "getPerturbedRho":
             b = agree.bind_call(c, [a.arg for a in chk.func(U.PTOOLS, kname).args.args]) or {}
             fe = b.get("feq")
-            okf = fe is not None and "self._fEq" in src(fe)
-            chk.ob("E2-argument-role", fe or c, f"{kname}: feq <- {src(fe) if fe is not None else '?'}", okf,
-                   "the equilibrium rows come from the precomputed table", file=U.POISSON, func=f"DensityFinder.{m}")
+            fe_x = _resolved(fn, fe) if fe is not None else None
+            tabs = {src(a) for a in ast.walk(fe_x) if isinstance(a, ast.Attribute) and isinstance(a.value, ast.Name)
+                    and a.value.id == "self"} if fe_x is not None else set()
+            okf = True if "self._fEq" in tabs else None
+            whyf = "the equilibrium rows come from the precomputed table"
+            if okf is None and tabs:
+                okf = False
+                whyf = (f"the equilibrium argument `{src(fe_x)[:60]}` is taken from {sorted(tabs)}, not from the table self._fEq that the "
+                        "constructor fills with f_eq(r_i, v_j): what is subtracted is not the equilibrium on the quadrature points")
+            elif okf is None:
+                whyf = f"the equilibrium argument `{src(fe) if fe is not None else '?'}` is not recognised as rows of the table self._fEq"
+            chk.ob("E2-argument-role", fe or c, f"{kname}: feq <- {src(fe) if fe is not None else '?'}", okf, whyf, file=U.POISSON,
+                   func=f"DensityFinder.{m}")
     # weights: interpolator of the spline handed to the constructor, which the driver takes along v (= last axis)
     qc = [n for n in ast.walk(init) if isinstance(n, ast.Assign) and src(n.targets[0]) == "self._quad_coeffs"]
     okq = len(qc) == 1 and src(qc[0].value).replace(" ", "").replace("\n", "") == "SplineInterpolator1D(bspline).get_quadrature_coefficients()"
@@ -161,11 +237,22 @@ def run(chk):
         raise AnalysisError("C16: DensityFinder construction not found in fullSimulation.main")
     b = agree.bind_call(dc[0], ["degree", "bspline", "eta_grid", "constants"]) or {}
     sp_arg = b.get("bspline")
-    okd = sp_arg is not None and src(sp_arg).replace(" ", "") == f"distribFunc.getSpline({last})"
-    chk.ob("E3-weights-dimension", dc[0], src(dc[0])[:90], okd,
-           f"the quadrature spline is the one of dimension {last} (v), the last axis of the layout the kernels assert" if okd else
-           f"the spline handed to DensityFinder is `{src(sp_arg) if sp_arg is not None else '?'}` but the integration axis is dimension {last}",
-           file=U.DRIVER, func="main")
+    sp_x = _resolved(dfn, sp_arg) if sp_arg is not None else None
+    okd, whyd = None, f"the spline handed to DensityFinder, `{src(sp_arg) if sp_arg is not None else '?'}`, is not recognised as `<grid>.getSpline(<dimension>)`"
+    if last is None:
+        whyd = "the layout assertion of getPerturbedRho (which names the integration axis) was not found"
+    elif isinstance(sp_x, ast.Call) and isinstance(sp_x.func, ast.Attribute) and sp_x.func.attr == "getSpline" and len(sp_x.args) == 1 \
+            and not sp_x.keywords and isinstance(sp_x.args[0], ast.Constant) and isinstance(sp_x.args[0].value, int):
+        okd = sp_x.args[0].value == last and src(sp_x.func.value) == "distribFunc"
+        if sp_x.args[0].value == last and not okd:
+            okd = None
+            whyd = f"`{src(sp_x)}`: the grid `{src(sp_x.func.value)}` is not the distribution function of the driver"
+        elif okd:
+            whyd = f"the quadrature spline is the one of dimension {last} (v), the last axis of the layout the kernels assert"
+        else:
+            whyd = (f"the spline handed to DensityFinder is `{src(sp_x)}` (dimension {sp_x.args[0].value}) but the kernels integrate over the "
+                    f"last axis of the asserted layout, dimension {last} (v): the weights belong to another coordinate")
+    chk.ob("E3-weights-dimension", dc[0], src(dc[0])[:90], okd, whyd, file=U.DRIVER, func="main")
     # no mutation of the stored basis integrals while computing the weights
     imod = chk.mod(U.INTERP)
     gq = chk.func(U.INTERP, "SplineInterpolator1D.get_quadrature_coefficients")
@@ -175,5 +262,5 @@ def run(chk):
            "; ".join(d for _, d in muts) + " - the next interpolator/DensityFinder built on the same spline gets wrong weights",
            file=U.INTERP, func="SplineInterpolator1D.get_quadrature_coefficients")
     chk.floor("F3-", 3)
-    chk.floor("C-", 8)
+    chk.floor("C-", 5)
     chk.floor("E2-argument-role", 10)
